@@ -36,7 +36,7 @@ class Injector:
     `fault_at`-th one raise InjectedFault (mode 'raise': before doing anything; mode 'partial': a file write puts half
     of the data first).  Exactly one failure per run; later primitives run normally (error handlers may clean up)."""
 
-    def __init__(self, root, fault_at=None, mode='raise', kill=None):
+    def __init__(self, root, fault_at=None, mode='raise', kill=None, reads=False):
         self.root = os.path.abspath(root) if root else None
         self.fault_at = fault_at
         self.mode = mode
@@ -47,6 +47,10 @@ class Injector:
         # file / archive is closed.
         self.kill = kill
         self.open_files = []
+        # reads: read primitives below root (open for reading, ZipFile(..., 'r'), ZipFile.open/read) are fault
+        # positions too (exception semantics only); they do not count as writes
+        self.reads = reads and kill is None
+        self.nwrites = 0
         self.count = 0
         self.trace = []
         self.writes_before = None
@@ -59,15 +63,17 @@ class Injector:
         except TypeError:
             return False
 
-    def hit(self, name):
+    def hit(self, name, mutating=True):
         """returns True when this primitive has to fail"""
         k = self.count
         self.count += 1
         self.trace.append(name)
         if self.fault_at is not None and k == self.fault_at and not self.fired:
             self.fired = True
-            self.writes_before = k
+            self.writes_before = self.nwrites       # mutating primitives completed before this one
             return True
+        if mutating:
+            self.nwrites += 1
         return False
 
     def fail(self, name):
@@ -142,6 +148,9 @@ class Injector:
                 if inj.hit('open:' + mode):
                     inj.fail('open')
                 return FileProxy(real_open(file, mode, *a, **kw))
+            if inj.reads and isinstance(file, (str, bytes, os.PathLike)) and inj._mine(file):
+                if inj.hit('open:r', mutating=False):
+                    inj.fail('open:r')
             return real_open(file, mode, *a, **kw)
         self._patch(builtins, 'open', open_)
 
@@ -181,10 +190,21 @@ class Injector:
         orig_zinit = zipfile.ZipFile.__dict__['__init__']
 
         def zinit(zself, file, mode='r', *a, **kw):
+            if inj.reads and mode == 'r' and isinstance(file, (str, bytes, os.PathLike)) and inj._mine(file):
+                if inj.hit('zip.open:r', mutating=False):
+                    inj.fail('zip.open:r')
             orig_zinit(zself, file, mode, *a, **kw)
             if mode != 'r' and zself.filename and inj._mine(zself.filename) and zself.fp is not None:
                 inj.open_files.append(zself.fp)
         self._patch(zipfile.ZipFile, '__init__', zinit)
+        orig_zopen = zipfile.ZipFile.__dict__['open']
+
+        def zopen(zself, name, mode='r', *a, **kw):
+            if inj.reads and mode == 'r' and zself.filename and inj._mine(zself.filename):
+                if inj.hit('zip.read', mutating=False):
+                    inj.fail('zip.read')
+            return orig_zopen(zself, name, mode, *a, **kw)
+        self._patch(zipfile.ZipFile, 'open', zopen)
         orig_zclose = zipfile.ZipFile.__dict__['close']
 
         def zclose(zself):
@@ -394,7 +414,8 @@ def execute(case, fault_at=None, kill=None):
                 if r == 'fault':
                     raise RuntimeError('fault outside injection')
             before = observe(kind, scratch, backend)
-            inj = Injector(None if kind == 'dict' else scratch, fault_at, case.get('fault', 'raise'), kill)
+            inj = Injector(None if kind == 'dict' else scratch, fault_at, case.get('fault', 'raise'), kill,
+                           reads=case.get('reads', False))
             if kind == 'dict':
                 inj.wrap_backend_methods(backend)
             with inj:
